@@ -17,7 +17,7 @@ LEVEL_TEXT = ('Lean 4 theorems about an executable list model of Spectrum whose 
               'one value per wavelength) is preserved by crop/trim/pad/append/resample and by every history, also when an operation is refused; '
               'crop keeps exactly the closed range and is covariant under a change of unit (crop_scale_covariant); trim keeps first-to-last '
               'sample above tolerance; retained samples are unaltered; `integrate s a b` (the model of method="trapz"; the default "simps" is not modelled) is linear in the values and additive at a sample '
-              '(integrate_linear, integrate_additive_at_sample) and exact for piecewise-linear data relative to the hand-defined reference `pwLinearIntegral` (trapz_exact_piecewise_linear, integrate_exact_piecewise_linear: equal to the sum over segments of the increments of a primitive of each segment\'s line; trapz_exact_linear_segment for one global line); both rules return one bin per centre (bin_length); trapezoid bins of a non-negative spectrum are non-negative for non-negative fill values and strictly increasing centres (bin_trapz_nonneg, about `bin` itself; hypotheses 0 ≤ fill_below, 0 ≤ fill_above, StrictInc centres; the zero-raw-sum case under preserve_power is covered: the code\'s translated guard `total != 0` leaves the raw bins unchanged), exact for a spectrum whose samples lie on ONE line with all bin edges inside the sampled range (bin_trapz_exact_linear) and, per bin, whenever the two edges of the bin lie in one data segment — the spectrum is linear across that bin, whatever it does elsewhere — the bin is the exact integral of the line of that segment (bin_trapz_exact_per_bin); Simpson bins (float centres, no power preservation) are non-negative for both end treatments (bin_simps_nonneg: bin_simps_nonneg_symmetric, bin_simps_nonneg_inside); with power preservation the TRAPEZOID bins sum to the trapezoid `integrate` over the centres\' span whenever the un-normalised bins do not sum to zero, and are the un-normalised bins themselves when they do (bin_preserve_power_sum); bins normalised by a supplied integral I sum to I for either rule, same two cases (bin_preserve_power_sum_given); '
+              '(integrate_linear, integrate_additive_at_sample; with the default bounds start=None/end=None, regenerated as Gen.integrateDefaultStart/End, it is the trapezoid sum over the whole grid: integrate_default_is_whole) and exact for piecewise-linear data relative to the hand-defined reference `pwLinearIntegral` (trapz_exact_piecewise_linear, integrate_exact_piecewise_linear: equal to the sum over segments of the increments of a primitive of each segment\'s line; trapz_exact_linear_segment for one global line); both rules return one bin per centre (bin_length); trapezoid bins of a non-negative spectrum are non-negative for non-negative fill values and strictly increasing centres (bin_trapz_nonneg, about `bin` itself; hypotheses 0 ≤ fill_below, 0 ≤ fill_above, StrictInc centres; the zero-raw-sum case under preserve_power is covered: the code\'s translated guard `total != 0` leaves the raw bins unchanged), exact for a spectrum whose samples lie on ONE line with all bin edges inside the sampled range (bin_trapz_exact_linear) and, per bin, whenever the two edges of the bin lie in one data segment — the spectrum is linear across that bin, whatever it does elsewhere — the bin is the exact integral of the line of that segment (bin_trapz_exact_per_bin); Simpson bins (float centres, no power preservation) are non-negative for both end treatments (bin_simps_nonneg: bin_simps_nonneg_symmetric, bin_simps_nonneg_inside); with power preservation the TRAPEZOID bins sum to the trapezoid `integrate` over the centres\' span whenever the un-normalised bins do not sum to zero, and are the un-normalised bins themselves when they do (bin_preserve_power_sum); bins normalised by a supplied integral I sum to I for either rule, same two cases (bin_preserve_power_sum_given); '
               ' refusals leave the spectrum (append/resample/trim/pad) or an emptied grid (crop).')
 LEVEL_NOTE = ('partial: non-negativity of Simpson bins for integer-dtype centres / under preserve_power (float centres without it: proved for both end treatments, bin_simps_nonneg = bin_simps_nonneg_symmetric + bin_simps_nonneg_inside), exactness of Simpson bins with ends="inside" or integer-dtype centres '
               'and every scipy.integrate.simpson clause are oracle-only; Simpson bins with symmetric ends on UNIFORM float centres are exact for a spectrum on one line with all sample points inside the data (bin_simps_exact_linear_uniform: same exactBins over the same edges as bin_trapz_exact_linear). Open known findings KF-C15-bin-integer-centres and KF-C15-bin-raw-sum-zero-nonzero-integral (preserve_power: when every sample point of the rule falls on a zero of the spectrum or outside the data the un-normalised bins sum to exactly zero while the integral over the centres\' span does not — the bins stay zero, the sum clause fails there; model witness kf_bin_raw_sum_zero_nonzero_integral; bin_preserve_power_sum* prove the sum clause exactly for a non-zero raw sum and bins = raw otherwise). '
